@@ -64,12 +64,14 @@ pub fn pairing<P: Pairing>(t: &mut Tally, name: &str, rng: &mut Rng, samples: us
         let ml = P::miller_loop(paa, qba);
         t.check(P::final_exponentiation(ml) == Some(lhs), || format!("{name}: final_exponentiation(miller_loop) != pairing"));
     }
-    // multi-pairings: every length 0..=4, identity entries at every position
-    for len in 0..=4usize {
+    // multi-pairings: every length 0..=5 with identity entries at every position, plus 8 and 9 (several 4-pair chunks)
+    for len in [0usize, 1, 2, 3, 4, 5, 8, 9] {
         let nz = |i: usize| &scal[1 + i % (scal.len() - 1)]; // non-zero scalars
         let ps: Vec<P::G1> = (0..len).map(|i| naive(&g1, nz(i))).collect();
         let qs: Vec<P::G2> = (0..len).map(|i| naive(&g2, nz(2 * i + 1))).collect();
-        for idpos in 0..=(2 * len) {
+        // short lists: an identity at every slot; lists spanning several 4-pair chunks: first/last G1 slot, one G2 slot, none
+        let slots: Vec<usize> = if len <= 5 { (0..=(2 * len)).collect() } else { vec![0, len - 1, len + 4, 2 * len] };
+        for idpos in slots {
             let mut p2 = ps.clone();
             let mut q2 = qs.clone();
             if idpos < len { p2[idpos] = P::G1::zero(); } else if idpos < 2 * len { q2[idpos - len] = P::G2::zero(); }
@@ -79,10 +81,10 @@ pub fn pairing<P: Pairing>(t: &mut Tally, name: &str, rng: &mut Rng, samples: us
             let qa: Vec<P::G2Affine> = q2.iter().map(|q| q.into_affine()).collect();
             let what = if idpos < len { "with an identity argument (G1 slot)" } else if idpos < 2 * len { "with an identity argument (G2 slot)" } else { "without identity entries" };
             if let Some(got) = t.no_panic(|| P::multi_pairing(pa.clone(), qa.clone()), || format!("{name}: multi_pairing {what} panics")) {
-                t.check(got == expect, || format!("{name}: multi_pairing of length {len} {what} (slot {idpos}) != product of pairings"));
+                t.check(got == expect, || format!("{name}: multi_pairing {what} != product of pairings (first at length {len}, slot {idpos})"));
             }
             if let Some(gp) = t.no_panic(|| P::multi_pairing(pa.iter().map(|p| P::G1Prepared::from(*p)), qa.iter().map(|q| P::G2Prepared::from(*q))), || format!("{name}: multi_pairing on prepared inputs {what} panics")) {
-                t.check(gp == expect, || format!("{name}: multi_pairing on prepared inputs of length {len} {what} (slot {idpos}) != product of pairings"));
+                t.check(gp == expect, || format!("{name}: multi_pairing on prepared inputs {what} != product of pairings (first at length {len}, slot {idpos})"));
             }
         }
     }
